@@ -61,21 +61,21 @@ META = {
              "equal matching label sets; grouping (engine-side and pushed-down) depends only on the set of resolved tag indices (groupKey_dedup, rule0_dedup). The model is tied to the code by diffing every result point of generated expressions run through the real "
              "engine on time scales built by the real GetTimescale; direct oracles: def-* (big.Rat definitions), def-*-numeric (outside the exact "
              "domain, relative tolerance), reduce-* (pushed-down vs engine-side evaluation)."),
-    "note": ("Round 3: over_time_is_definition_general proves the window definition on arbitrary (two-LOD) grids, given the left edge L r "
-             "characterised by the cursor's own test with the point's bucket width (instance: a concrete two-LOD grid); "
-             "overtime_pushdown_two_grids proves that rule #1's storage pre-aggregate of a bucket equals f_over_time over the one-second points of "
-             "that bucket for sum/min/max/count (count: missing vs 0), avg at the row level, with at most one event per second of the grid. "
-             "Still partial: a closed form of L for every two-LOD grid is not derived (L is a hypothesis satisfied by construction/decide); strict "
-             "functions with a range narrower than a coarse bucket are excluded by hypothesis; rules #2/#3 are proved equal to the storage query and "
-             "that query to the aggregate of per-series storage values, their two-grid form is oracle-only; stddev on non-squares, group order, "
-             "the weight function of topk are correspondence-only. Trusted: Lean kernel; the Handler stub (storage contract; it calls the real "
-             "tsValues.merge/value); exact arithmetic (float rounding only through the numeric oracle stream); one time shift, no filters; binary "
-             "operators one-to-one without bool/!=/set operators; histogram_quantile, predict_linear out of scope. Known finding: stdvar/"
-             "stddev_over_time push-down (sample vs population variance). DEFECT reported with fix (fixes/C27-group-alias.diff): a grouping label "
-             "given only by the legacy alias key<i> is resolved by the pushed-down storage query but not by the engine-side label hash, so "
-             "`sum by (key1) (m)` pushed down differs from its engine-side evaluation (repo_alias_violates; the check is red on a tree without the "
-             "fix). Observation, NOT a C27 violation (binary comparisons are not among the property's operators) and not alarmed (cases "
-             "regenerated): with the label-less scalar operand on the LEFT of an ordering comparison evalBinary's swapped operator table "
-             "(GTR->LTE, GTE->LSS, LSS->GTE, LTE->GTR) differs from the mirrored operator on ties."),
+    "note": ("Round 4: avg is inside the two-grid statement (overtime_pushdown_two_grids_avg); rules #2 and #3 have two-grid forms "
+             "(rule2_two_grids, rule3_two_grids via two_grid_core: the pushed-down point of a group and bucket equals the engine's evaluation on "
+             "the one-second grid for sum/min/max compositions; rule #3 without any restriction on events per second); subqueries: "
+             "subquery_is_window_of_results (f over the window of the operand's RESULTS with the subquery's own range), the C27-r3-2 mutation is "
+             "the variant evalChainEarlyRange with the witness early_range_violates. Earlier rounds: over_time_is_definition(_general), "
+             "pushed_query_is_aggregate, rule0..3_expression, quantile_def, topk_def, groupKey_dedup, binApply_*. "
+             "Still partial: a closed form of the window edge L for every two-LOD grid is not derived (hypothesis, satisfied by decide per grid); "
+             "strict functions with a range narrower than a coarse bucket are excluded by hypothesis; count-of-count and avg-of-avg compositions "
+             "are not pooled values and are outside the exact push-down statements; stddev on non-squares, group order, the weight function of topk "
+             "are correspondence-only. Trusted: Lean kernel; the Handler stub (storage contract; it calls the real tsValues.merge/value); exact "
+             "arithmetic (float rounding only through the numeric oracle stream); one time shift, no filters; binary operators one-to-one without "
+             "bool/!=/set operators; histogram_quantile, predict_linear out of scope. Known finding: stdvar/stddev_over_time push-down (sample vs "
+             "population variance). Fixed in /repo: reduction what (3ba3df3b), missing points (600fb7e6), legacy alias grouping (78db24c9; "
+             "repo_alias_violates / aggregateRepoAlias remain as the pre-fix witness only). Observation, NOT a C27 violation (binary comparisons are "
+             "not among the property's operators) and not alarmed (cases regenerated): with the label-less scalar operand on the LEFT of an ordering "
+             "comparison evalBinary's swapped operator table (GTR->LTE, GTE->LSS, LSS->GTE, LTE->GTR) differs from the mirrored operator on ties."),
     "design_ref": "DESIGN.md §6 C27",
 }
